@@ -116,6 +116,16 @@ impl Txn {
         seen
     }
 
+    /// commits the transaction's index knows but that are not visible (abandoned / rewritten away
+    /// by an earlier operation): `jj new <hidden commit>` makes them reachable again
+    pub fn hidden(&self, w: &World) -> Vec<usize> {
+        let vis = self.visible(w);
+        (2..=w.commits.len())
+            .filter(|c| !vis.contains(c) && !self.is_key(*c))
+            .filter(|&c| self.tx.repo().index().has_id(&w.cid(c)).block_on().unwrap_or(false))
+            .collect()
+    }
+
     pub fn new_commit(&mut self, w: &mut World, parents: &[usize], empty: bool, described: bool) -> usize {
         let pids: Vec<CommitId> = parents.iter().map(|&p| w.cid(p)).collect();
         let tree = w.tree_on(self.tx.repo(), &pids, empty);
@@ -331,6 +341,7 @@ pub fn emit_op(w: &mut World, out: &mut Out, repo: &Arc<ReadonlyRepo>, kind: &st
     let new = w.drain_new(repo.as_ref());
     let parents: Vec<usize> = repo.operation().parent_ids().iter().map(|p| w.op_id(p)).collect();
     let opid = w.op_id(repo.op_id());
+    w.op_parents.insert(opid, parents.clone());
     let mut v = json!({"op":kind,"opid":opid,"parents":parents,"new":new,"preds":preds,"view":view});
     for (k, x) in extra.as_object().unwrap() {
         v[k] = x.clone();
@@ -371,8 +382,9 @@ fn random_actions(w: &mut World, rng: &mut Rng, out: &mut Out, t: &mut Txn, n: u
         let nonkey: Vec<usize> = nonroot.iter().copied().filter(|&c| !t.is_key(c)).collect();
         match rng.below(100) {
             0..=21 => {
-                // new commit on 1-2 visible parents
-                let mut ps = vec![*rng.pick(&vis)];
+                // new commit on 1-2 visible parents; sometimes the first parent is a hidden commit
+                let hid = t.hidden(w);
+                let mut ps = vec![if !hid.is_empty() && rng.chance(1, 8) { *rng.pick(&hid) } else { *rng.pick(&vis) }];
                 if rng.chance(1, 5) {
                     let q = *rng.pick(&vis);
                     let related = {
@@ -538,6 +550,153 @@ fn merge_pair(w: &mut World, out: &mut Out, a: &Arc<ReadonlyRepo>, b: &Arc<Reado
     }
 }
 
+fn op_ancestors(w: &World, o: usize) -> BTreeSet<usize> {
+    let mut seen = BTreeSet::new();
+    let mut st = vec![o];
+    while let Some(x) = st.pop() {
+        if seen.insert(x) {
+            st.extend(w.op_parents.get(&x).into_iter().flatten().copied());
+        }
+    }
+    seen
+}
+
+/// the closest common ancestor operation of two operations, if it is unique
+/// (it names the base view the MergeOK contract refers to; it is an input of
+/// the judgement, not a prediction of the result)
+fn op_gca(w: &World, a: usize, b: usize) -> Option<usize> {
+    let (aa, ab) = (op_ancestors(w, a), op_ancestors(w, b));
+    let common: Vec<usize> = aa.intersection(&ab).copied().collect();
+    let heads: Vec<usize> = common
+        .iter()
+        .copied()
+        .filter(|&c| !common.iter().any(|&d| d != c && op_ancestors(w, d).contains(&c)))
+        .collect();
+    if heads.len() == 1 { Some(heads[0]) } else { None }
+}
+
+fn merge_pair_auto(w: &mut World, out: &mut Out, a: &Arc<ReadonlyRepo>, b: &Arc<ReadonlyRepo>)
+    -> Result<Arc<ReadonlyRepo>, Aborted> {
+    let (ia, ib) = (w.op_id(a.op_id()), w.op_id(b.op_id()));
+    match op_gca(w, ia, ib) {
+        Some(base) => merge_pair(w, out, a, b, base, "pair"),
+        None => merge_pair(w, out, a, b, 0, "crisscross"),
+    }
+}
+
+/// Reconcile three or more operation heads in ONE RepoLoader::merge_operations
+/// call (the path load_at_head takes), in the given order.  To let the pair
+/// contract MergeOK judge the n-way result, the same heads are first
+/// reconciled pairwise (each pair judged as usual); the n-way result is then
+/// logged with "self side" = the view of the last pairwise intermediate, whose
+/// commits are renamed to the n-way call's own commits through the predecessor
+/// records (the two calls rebase the same commits but write distinct copies).
+fn reconcile_many(w: &mut World, out: &mut Out, heads: &[Arc<ReadonlyRepo>]) -> Result<Arc<ReadonlyRepo>, Aborted> {
+    assert!(heads.len() >= 3);
+    let mut acc = heads[0].clone();
+    // commits written by the pairwise intermediates: real id -> (real predecessor ids, real parent ids)
+    let mut made: Vec<(CommitId, Vec<CommitId>, Vec<CommitId>)> = vec![];
+    for h in &heads[1..heads.len() - 1] {
+        acc = merge_pair_auto(w, out, &acc, h)?;
+        if let Some(map) = &acc.operation().store_operation().commit_predecessors {
+            let mut ks: Vec<&CommitId> = map.keys().collect();
+            ks.sort_by_key(|k| w.ids[*k]);
+            for k in ks {
+                let c = acc.store().get_commit(k).unwrap();
+                made.push((k.clone(), map[k].clone(), c.parent_ids().to_vec()));
+            }
+        }
+    }
+    let last = heads.last().unwrap();
+    let (iacc, ilast) = (w.op_id(acc.op_id()), w.op_id(last.op_id()));
+    let base = op_gca(w, iacc, ilast);
+    let loader = heads[0].loader().clone();
+    let ops: Vec<_> = heads.iter().map(|h| h.operation().clone()).collect();
+    let n_old = w.commits.len();
+    let r = catch(std::panic::AssertUnwindSafe(|| {
+        loader.merge_operations(ops, None, Some("reconcile"), []).block_on().map_err(|e| e.to_string())
+    }));
+    let ctx = json!({"heads": heads.iter().map(|h| w.op_id(h.op_id())).collect::<Vec<_>>()});
+    let repo = match r {
+        Ok(Ok((repo, _))) => repo,
+        Ok(Err(e)) => return Err(panic_event("merge_operations", format!("error: {e}"), ctx)),
+        Err(m) => return Err(panic_event("merge_operations", m, ctx)),
+    };
+    // rename the intermediates' own commits to the n-way call's copies
+    let mut by_preds: std::collections::HashMap<Vec<CommitId>, CommitId> = std::collections::HashMap::new();
+    let mut fresh: Vec<(CommitId, Vec<CommitId>)> = vec![];
+    if let Some(map) = &repo.operation().store_operation().commit_predecessors {
+        for (k, vs) in map {
+            if vs.is_empty() {
+                fresh.push((k.clone(), repo.store().get_commit(k).unwrap().parent_ids().to_vec()));
+            } else {
+                by_preds.insert(vs.clone(), k.clone());
+            }
+        }
+    }
+    let mut sigma: std::collections::HashMap<CommitId, CommitId> = std::collections::HashMap::new();
+    let rename = |sigma: &std::collections::HashMap<CommitId, CommitId>, ids: &[CommitId]| -> Vec<CommitId> {
+        ids.iter().map(|i| sigma.get(i).cloned().unwrap_or_else(|| i.clone())).collect()
+    };
+    for (c, preds, parents) in &made {
+        let target = if preds.is_empty() {
+            let want = rename(&sigma, parents);
+            fresh.iter().find(|(_, ps)| *ps == want).map(|(k, _)| k.clone())
+        } else {
+            by_preds.get(&rename(&sigma, preds)).cloned()
+        };
+        if let Some(t) = target {
+            sigma.insert(c.clone(), t);
+        }
+    }
+    let view = acc.view();
+    let mut sheads: Vec<usize> = rename(&sigma, &view.heads().iter().cloned().collect::<Vec<_>>())
+        .iter().map(|c| w.id_of(repo.as_ref(), c)).collect();
+    sheads.sort();
+    sheads.dedup();
+    let sbm: Vec<Vec<usize>> = BOOKMARKS.iter().map(|n| {
+        view.get_local_bookmark(RefName::new(n)).as_merge().iter()
+            .map(|t| match t {
+                None => 0,
+                Some(id) => { let r = rename(&sigma, std::slice::from_ref(id)); w.id_of(repo.as_ref(), &r[0]) }
+            }).collect()
+    }).collect();
+    let swc: Vec<usize> = WORKSPACES.iter().map(|n| {
+        view.get_wc_commit_id(WorkspaceName::new(n)).map_or(0, |id| {
+            let r = rename(&sigma, std::slice::from_ref(id));
+            w.id_of(repo.as_ref(), &r[0])
+        })
+    }).collect();
+    let extra = match base {
+        Some(b) => json!({"kind": "nway", "base": b, "other": ilast, "nold": n_old,
+                          "selfview": {"heads": sheads, "bm": sbm, "wc": swc}, "via": iacc}),
+        None => json!({"kind": "crisscross", "base": 0, "nold": n_old}),
+    };
+    emit_op(w, out, &repo, "merge", extra);
+    Ok(repo)
+}
+
+/// nested forks: A -> B, A -> X -> C, X -> D (and optionally C -> E, C -> G): heads fork from
+/// different points; rewrites / working-copy moves / bookmark moves happen on the newer line
+fn nested_forks(w: &mut World, rng: &mut Rng, out: &mut Out, head: &Arc<ReadonlyRepo>, four: bool)
+    -> Result<Arc<ReadonlyRepo>, Aborted> {
+    let b = one_tx(w, rng, out, head, false, (1, 3), true)?;
+    let x = one_tx(w, rng, out, head, false, (1, 4), true)?;
+    let c = one_tx(w, rng, out, &x, false, (1, 4), true)?;
+    let d = one_tx(w, rng, out, &x, false, (1, 3), true)?;
+    let mut heads = vec![b, d];
+    if four {
+        let e = one_tx(w, rng, out, &c, false, (1, 3), true)?;
+        let g = one_tx(w, rng, out, &c, false, (1, 3), true)?;
+        heads.push(e);
+        heads.push(g);
+    } else {
+        heads.push(c);
+    }
+    rng.shuffle(&mut heads);
+    reconcile_many(w, out, &heads)
+}
+
 fn run_case(rng: &mut Rng, out: &mut Out, case: usize, steps: usize, thorough: bool) -> Result<(), Aborted> {
     let mut w = World::new();
     out.emit(&json!({"op":"reset","case":case}));
@@ -564,8 +723,35 @@ fn run_case(rng: &mut Rng, out: &mut Out, case: usize, steps: usize, thorough: b
     for _ in 0..steps {
         let n_act = (1, 5);
         match rng.below(100) {
-            0..=54 => {
+            0..=5 => {
+                // a fresh transaction that does nothing but create 1-2 commits (or a merge) on top of a
+                // hidden commit; falls back to an ordinary transaction when nothing is hidden yet
+                let mut t = Txn::start(&head);
+                let hid = t.hidden(&w);
+                if hid.is_empty() {
+                    random_actions(&mut w, rng, out, &mut t, 2, false)?;
+                } else {
+                    let h = *rng.pick(&hid);
+                    let heads: Vec<usize> = head.view().heads().iter().map(|x| w.ids[x]).filter(|&x| x != 1).collect();
+                    let c = match rng.below(3) {
+                        0 if !heads.is_empty() => {
+                            let q = *rng.pick(&heads);
+                            t.new_commit(&mut w, &[h, q], rng.chance(1, 3), true)
+                        }
+                        _ => t.new_commit(&mut w, &[h], rng.chance(1, 3), true),
+                    };
+                    if rng.chance(1, 3) {
+                        t.new_commit(&mut w, &[c], false, true);
+                    }
+                }
+                head = t.commit(&mut w, out, publish)?;
+            }
+            6..=54 => {
                 head = one_tx(&mut w, rng, out, &head, publish, n_act, false)?;
+            }
+            74..=79 if !publish => {
+                let four = rng.chance(1, 3);
+                head = nested_forks(&mut w, rng, out, &head, four)?;
             }
             55..=79 => {
                 let base = w.op_id(head.op_id());
@@ -599,12 +785,17 @@ fn run_case(rng: &mut Rng, out: &mut Out, case: usize, steps: usize, thorough: b
                     sides.push(one_tx(&mut w, rng, out, &head, false, (1, 4), true)?);
                 }
                 rng.shuffle(&mut sides);
-                let m1 = merge_pair(&mut w, out, &sides[0], &sides[1], base, "pair")?;
-                head = if rng.chance(1, 2) {
-                    merge_pair(&mut w, out, &m1, &sides[2], base, "pair")?
+                if rng.chance(1, 2) {
+                    // one merge_operations call over the three heads (load_at_head's path)
+                    head = reconcile_many(&mut w, out, &sides)?;
                 } else {
-                    merge_pair(&mut w, out, &sides[2], &m1, base, "pair")?
-                };
+                    let m1 = merge_pair(&mut w, out, &sides[0], &sides[1], base, "pair")?;
+                    head = if rng.chance(1, 2) {
+                        merge_pair(&mut w, out, &m1, &sides[2], base, "pair")?
+                    } else {
+                        merge_pair(&mut w, out, &sides[2], &m1, base, "pair")?
+                    };
+                }
             }
             90..=94 if !publish && thorough => {
                 // criss-cross: both orders of one pair, one more transaction on each, reconcile those
@@ -649,6 +840,89 @@ fn directed_case(out: &mut Out, case: usize, on_root: bool) -> Result<(), Aborte
     Ok(())
 }
 
+/// scripted nested forks (coordinator's shape): A has K (w1 and b1 at K); X (from A) rewrites
+/// K to K1; B (from A) adds U; C (from X) rewrites K1 to K2; D (from X) adds V and sets b2;
+/// with `four`: E (from C) rewrites K2 to K3, G (from C) adds W on K2, heads {B, D, E, G}.
+/// The heads are reconciled in one merge_operations call in the given order.
+fn directed_nway(out: &mut Out, case: usize, order: &[usize], four: bool) -> Result<(), Aborted> {
+    let mut w = World::new();
+    out.emit(&json!({"op":"reset","case":case}));
+    let mut t = Txn::start(&w.repo0());
+    let k = t.new_commit(&mut w, &[1], false, true);
+    t.edit(&mut w, "w1", k)?;
+    t.set_bookmark(&w, "b1", &[k]);
+    let a = t.commit(&mut w, out, false)?;
+    let mut t = Txn::start(&a);
+    let k1 = t.rewrite(&mut w, k, None).unwrap();
+    let x = t.commit(&mut w, out, false)?;
+    let mut t = Txn::start(&a);
+    t.new_commit(&mut w, &[1], false, true);
+    let b = t.commit(&mut w, out, false)?;
+    let mut t = Txn::start(&x);
+    let k2 = t.rewrite(&mut w, k1, None).unwrap();
+    let c = t.commit(&mut w, out, false)?;
+    let mut t = Txn::start(&x);
+    let v = t.new_commit(&mut w, &[1], false, true);
+    t.set_bookmark(&w, "b2", &[v]);
+    let d = t.commit(&mut w, out, false)?;
+    let mut pool = vec![b, d];
+    if four {
+        let mut t = Txn::start(&c);
+        t.rewrite(&mut w, k2, None).unwrap();
+        let e = t.commit(&mut w, out, false)?;
+        let mut t = Txn::start(&c);
+        t.new_commit(&mut w, &[k2], false, true);
+        let g = t.commit(&mut w, out, false)?;
+        pool.push(e);
+        pool.push(g);
+    } else {
+        pool.push(c);
+    }
+    let heads: Vec<Arc<ReadonlyRepo>> = order.iter().map(|&i| pool[i].clone()).collect();
+    let m = reconcile_many(&mut w, out, &heads)?;
+    emit_walk(&mut w, out, &m, 2);
+    Ok(())
+}
+
+/// scripted: root <- A <- B, B hidden by an earlier operation (abandoned, or rewritten away with
+/// the rewrite then abandoned), A a recorded head; then a FRESH transaction that only creates
+/// commits on top of the hidden B: `variant` 0 = one commit, 1 = two commits, 2 = a merge commit
+/// with the hidden B and a visible head as parents.  The committed heads must be normalized.
+fn directed_hidden_parent(out: &mut Out, case: usize, variant: usize, rewritten: bool) -> Result<(), Aborted> {
+    let mut w = World::new();
+    out.emit(&json!({"op":"reset","case":case}));
+    let mut t = Txn::start(&w.repo0());
+    let a = t.new_commit(&mut w, &[1], false, true);
+    let b = t.new_commit(&mut w, &[a], false, true);
+    let other = t.new_commit(&mut w, &[1], false, true);
+    let r1 = t.commit(&mut w, out, true)?;
+    let mut t = Txn::start(&r1);
+    if rewritten {
+        let b2 = t.rewrite(&mut w, b, None).unwrap();
+        t.rebase(&mut w, out, "keep", false)?;
+        t.abandon(&w, b2);
+    } else {
+        t.abandon(&w, b);
+    }
+    t.rebase(&mut w, out, "keep", false)?;
+    let r2 = t.commit(&mut w, out, true)?;
+    let mut t = Txn::start(&r2);
+    match variant {
+        0 => {
+            t.new_commit(&mut w, &[b], false, true);
+        }
+        1 => {
+            let c = t.new_commit(&mut w, &[b], false, true);
+            t.new_commit(&mut w, &[c], true, false);
+        }
+        _ => {
+            t.new_commit(&mut w, &[b, other], false, true);
+        }
+    }
+    t.commit(&mut w, out, true)?;
+    Ok(())
+}
+
 pub fn run(opts: &Opts) -> Result<(), String> {
     jjconf::util::quiet_panics();
     let mut out = Out::create(&opts.str("out", "repo.ndjson"))?;
@@ -663,6 +937,25 @@ pub fn run(opts: &Opts) -> Result<(), String> {
             case += 1;
             if let Err(Aborted(v)) = directed_case(&mut out, case, on_root) {
                 out.emit(&v);
+            }
+        }
+        for variant in 0..3 {
+            for rewritten in [false, true] {
+                case += 1;
+                if let Err(Aborted(v)) = directed_hidden_parent(&mut out, case, variant, rewritten) {
+                    out.emit(&v);
+                }
+            }
+        }
+        // pool = [B, D, C]: every order of the three heads; pool = [B, D, E, G]: six orders of four
+        let three: [&[usize]; 6] = [&[0, 2, 1], &[0, 1, 2], &[2, 0, 1], &[2, 1, 0], &[1, 0, 2], &[1, 2, 0]];
+        let four: [&[usize]; 6] = [&[0, 1, 2, 3], &[0, 3, 2, 1], &[2, 3, 1, 0], &[1, 0, 3, 2], &[3, 0, 1, 2], &[0, 2, 1, 3]];
+        for (orders, is_four) in [(three, false), (four, true)] {
+            for order in orders {
+                case += 1;
+                if let Err(Aborted(v)) = directed_nway(&mut out, case, order, is_four) {
+                    out.emit(&v);
+                }
             }
         }
     }
